@@ -1,7 +1,7 @@
 import os
 import vlib
 
-THEOREMS = []
+THEOREMS = ["Dispenso.OnceFn." + t for t in ['C39_plan_inline', 'C39_inline_aligned', 'C39_plan_spill', 'C39_spill_aligned', 'C39_getOrdinal', 'C39_inv_reachable', 'C39_exactly_once', 'C39_invoke', 'C39_cleanup', 'C39_move_transfers', 'C39_move_transfers_assign', 'C39_blocks_ledger', 'C39_rejects_reuse']]
 
 
 def run(ctx, replay):
